@@ -69,12 +69,17 @@ namespace riddle
             case TP_ID:
             case STRING_ID:
             case LBRACE_ID:
+            case LPAREN_ID:
+            case PLUS_ID:
+            case MINUS_ID:
             case BANG_ID:
+            case NEW_ID:
             case FACT_ID:
             case GOAL_ID:
             case BoolLiteral_ID:
             case IntLiteral_ID:
             case RealLiteral_ID:
+            case StringLiteral_ID:
                 stmnts.emplace_back(_statement());
                 break;
             case ID_ID:
